@@ -9,7 +9,7 @@
 
     The model is parameterised by [facts] regenerated from /repo's source (GenSbmlFacts.v) and by
     [fs], the enumeration order of [expr.free_symbols] (a Python set: any order can occur). *)
-From Coq Require Import String Ascii List ZArith QArith Bool.
+From Coq Require Import String Ascii List ZArith QArith Bool DecimalString.
 From SbmlImp Require Import SbmlExpr.
 Import ListNotations.
 Open Scope string_scope.
@@ -19,6 +19,10 @@ Inductive ia_order := ParamsThenVars | VarsThenParams | IaUnknown.
 Inductive section_tag := SecVars | SecPars | SecDer | SecRxn.
 Inductive stoich_key := RxnInfixFn | FnInfixRxn | StoichKeyUnknown.
 Inductive module_name := StemOnly | StemPlusDigest | ModuleNameUnknown.
+(** how a function body is stored in the [functions] dict:
+    RegOverwrite  [functions[key] = (expr, args)]                         (snapshot: a clash replaces the earlier def)
+    RegFresh      [name = _register_fn(functions, key, expr, args)]       (fix a07e507: a different function gets key_1, key_2, ...) *)
+Inductive register_kind := RegOverwrite | RegFresh | RegUnknown.
 
 Record facts := mkFacts {
   f_init_prefix : string;            (* f"init_{init.fn_name}" *)
@@ -28,6 +32,7 @@ Record facts := mkFacts {
   f_ia_order : ia_order;             (* `if key in model.parameters ... elif key in model.variables` *)
   f_module_name : module_name;       (* out_name = valid_filename(file.stem); file = <tmp>/<out_name>.py *)
   f_file_prefix : string;            (* "mb_" *)
+  f_register : register_kind;        (* how every write into [functions] is done *)
   f_shapes_ok : bool                 (* every other statement of the anchored functions has the modelled shape *)
 }.
 
@@ -86,6 +91,57 @@ Fixpoint nodup_strb (l : list string) : bool :=
   match l with
   | [] => true
   | x :: r => negb (existsb (String.eqb x) r) && nodup_strb r
+  end.
+
+(** ** _register_fn / _positional_fn (codegen_mxlpy.py, fix a07e507) *)
+(** f"{fn_name}_{i}" *)
+Definition dec (i : nat) : string := NilEmpty.string_of_uint (Nat.to_uint i).
+
+Fixpoint index_of (s : string) (l : list string) (i : nat) : option nat :=
+  match l with
+  | [] => None
+  | x :: r => if String.eqb s x then Some i else index_of s r (S i)
+  end.
+
+(** every argument renamed to its (first) position; other symbols stay *)
+Fixpoint positional (args : list string) (e : expr) : expr :=
+  match e with
+  | ENum f q => ENum f q
+  | ESym s => match index_of s args 0 with Some i => ESym ("__arg" ++ dec i ++ "__") | None => ESym s end
+  | EBin o a b => EBin o (positional args a) (positional args b)
+  | EPow a n => EPow (positional args a) n
+  | EPw v r a b e' => EPw (positional args v) r (positional args a) (positional args b) (positional args e')
+  | EFun f a => EFun f (positional args a)
+  end.
+
+(** [_positional_fn(old) == _positional_fn(new)]: equal arity and equal renamed expressions.  SymPy compares
+    the renamed expressions in canonical operand order; the model compares the trees as they stand (it can
+    only say "different" more often, which costs a fresh name, never a wrong def) *)
+Definition pos_eqb (a b : expr * list string) : bool :=
+  Nat.eqb (length (snd a)) (length (snd b)) && expr_eqb (positional (snd a) (fst a)) (positional (snd b) (fst b)).
+
+(** the while loop of _register_fn: [name] is the candidate under test, [base_i] the next one;
+    [None] = fuel exhausted (never with fuel = len(functions) + 1: SbmlProofs.pick_total) *)
+Fixpoint pick_name (fuel : nat) (d : list (string * (expr * list string))) (base : string) (i : nat) (name : string)
+              (new : expr * list string) : option string :=
+  match lookup name d with
+  | None => Some name
+  | Some old =>
+      if pos_eqb old new then Some name
+      else match fuel with
+           | O => None
+           | S fuel' => pick_name fuel' d base (S i) (base ++ "_" ++ dec i) new
+           end
+  end.
+
+Fixpoint map_acc {D X Y} (f : D -> X -> option (D * Y)) (d : D) (l : list X) : option (D * list Y) :=
+  match l with
+  | [] => Some (d, [])
+  | x :: r =>
+      match f d x with
+      | Some (d', y) => match map_acc f d' r with Some (d'', ys) => Some (d'', y :: ys) | None => None end
+      | None => None
+      end
   end.
 
 Section Pipeline.
@@ -166,13 +222,82 @@ Section Pipeline.
             | SSFn f => BSDer (stoich_fn_key rxn f) (sf_args f)
             end).
 
-  Definition generate (s : symrepr) : gensrc :=
+  (** the module as the snapshot wrote it: every body under its requested key, last write wins.  Kept as the
+      reference the repaired generator is compared with (they coincide when no two keys clash). *)
+  Definition generate_flat (s : symrepr) : gensrc :=
     mkG (build_dict (events s))
         (map gen_val (s_vars s))
         (map gen_val (s_pars s))
         (map (fun p => (fst p, (sf_name (snd p), sf_args (snd p)))) (s_der s))
         (map (fun p => (fst p, mkBR (sf_name (sr_fn (snd p))) (sf_args (sr_fn (snd p)))
                                    (map (gen_st (fst p)) (sr_st (snd p))))) (s_rxn s)).
+
+  (** ** the generator as it is: the dict is threaded through the four loops, every body is stored by
+      [reg] and the builder call refers to the name [reg] returned.  [None] = an unrecognised fact. *)
+  Definition reg (d : list (string * fdef)) (key : string) (new : fdef) : option (list (string * fdef) * string) :=
+    match f_register F with
+    | RegOverwrite => Some (dict_set key new d, key)
+    | RegFresh =>
+        match pick_name (S (length d)) d key 1 key new with
+        | Some n => Some (dict_set n new d, n)
+        | None => None
+        end
+    | RegUnknown => None
+    end.
+
+  Definition reg_val (d : list (string * fdef)) (p : string * symval) : option (list (string * fdef) * (string * bval)) :=
+    match snd p with
+    | SVNum q => Some (d, (fst p, BNum q))
+    | SVFn f => match reg d (init_key f) (sf_expr f, sf_args f) with
+                | Some (d', n) => Some (d', (fst p, BIA n (sf_args f)))
+                | None => None
+                end
+    end.
+  Definition reg_der (d : list (string * fdef)) (p : string * symfn) :=
+    match reg d (sf_name (snd p)) (sf_expr (snd p), sf_args (snd p)) with
+    | Some (d', n) => Some (d', (fst p, (n, sf_args (snd p))))
+    | None => None
+    end.
+  Definition reg_st (rxn : string) (d : list (string * fdef)) (p : string * symst) : option (list (string * fdef) * (string * bst)) :=
+    match snd p with
+    | SSNum q => Some (d, (fst p, BSNum q))
+    | SSName s => Some (d, (fst p, BSName s))
+    | SSFn f => match reg d (stoich_fn_key rxn f) (sf_expr f, sf_args f) with
+                | Some (d', n) => Some (d', (fst p, BSDer n (sf_args f)))
+                | None => None
+                end
+    end.
+  Definition reg_rxn (d : list (string * fdef)) (p : string * symrxn) :=
+    match reg d (sf_name (sr_fn (snd p))) (sf_expr (sr_fn (snd p)), sf_args (sr_fn (snd p))) with
+    | Some (d1, n) =>
+        match map_acc (reg_st (fst p)) d1 (sr_st (snd p)) with
+        | Some (d2, st) => Some (d2, (fst p, mkBR n (sf_args (sr_fn (snd p))) st))
+        | None => None
+        end
+    | None => None
+    end.
+
+  Definition generate (s : symrepr) : option gensrc :=
+    match f_sections F with
+    | [SecVars; SecPars; SecDer; SecRxn] =>
+        match map_acc reg_val [] (s_vars s) with
+        | Some (d1, vs) =>
+            match map_acc reg_val d1 (s_pars s) with
+            | Some (d2, ps) =>
+                match map_acc reg_der d2 (s_der s) with
+                | Some (d3, ds) =>
+                    match map_acc reg_rxn d3 (s_rxn s) with
+                    | Some (d4, rs) => Some (mkG d4 vs ps ds rs)
+                    | None => None
+                    end
+                | None => None
+                end
+            | None => None
+            end
+        | None => None
+        end
+    | _ => None
+    end.
 
   (** ** executing the module: every function reference is resolved in the module namespace
       (the last def of a name wins -- the dict already holds one body per name);
@@ -255,10 +380,16 @@ Section Pipeline.
 
   Definition out_name (stem : string) : string := valid_filename stem.
 
+  (** _codegen + import_from_path + create_model() under the module name [file] *)
+  Definition run_module (file : string) (tm : tmodel) : option mmodel :=
+    match generate (codegen tm) with Some g => exec file g | None => None end.
+
   Definition read (s : session) (stem : string) (tm : tmodel) : session * option mmodel :=
     let name := out_name stem in
-    let g := generate (codegen tm) in
-    (mkS (dict_set name g (ss_files s)) (dict_set name g (ss_modules s)), exec name g).
+    match generate (codegen tm) with
+    | Some g => (mkS (dict_set name g (ss_files s)) (dict_set name g (ss_modules s)), exec name g)
+    | None => (s, None)
+    end.
 
   (** inspect.getsource(fn): the def of that name in the file the code object points at, as the
       file is NOW *)
@@ -279,4 +410,8 @@ End Pipeline.
 
 (** the facts of the tree the theorems were proved for *)
 Definition expected_facts : facts :=
-  mkFacts "init_" "_stoich_" RxnInfixFn [SecVars; SecPars; SecDer; SecRxn] ParamsThenVars StemOnly "mb_" true.
+  mkFacts "init_" "_stoich_" RxnInfixFn [SecVars; SecPars; SecDer; SecRxn] ParamsThenVars StemOnly "mb_" RegFresh true.
+
+(** the facts of the snapshot (before fix a07e507): regression witness for the key-collision defect *)
+Definition snapshot_facts : facts :=
+  mkFacts "init_" "_stoich_" RxnInfixFn [SecVars; SecPars; SecDer; SecRxn] ParamsThenVars StemOnly "mb_" RegOverwrite true.
